@@ -9,7 +9,7 @@
  *   CP     a connection arrives but no pipe can be allocated for it (NNG_ENOMEM)
  *   T      the 10 ms cool-down timer fires
  *   N(ok)  the oldest negotiating connection finishes its handshake (ok=1: valid SP header of the
- *          peer; ok=0: the stream fails with NNG_ECONNRESET)
+ *          peer; ok=0: the stream fails with NNG_ECONNRESET; ok=2: with NNG_ECLOSED - the peer hung up, EPIPE)
  *   Z      the endpoint is closed
  * checked after every event:
  *   - "listeners keep accepting after individual failures": an open, started listener is always
@@ -412,7 +412,7 @@ ev_nego(int ok)
 	if (kstop)
 		return;
 	nnego_done++;
-	if (ok) {
+	if (ok == 1) {
 		nni_aio *a = c->xfer;
 		c->xfer    = NULL;
 		nni_aio_finish(a, 0, HDRSZ); /* our header went out */
@@ -433,12 +433,25 @@ ev_nego(int ok)
 	} else {
 		nni_aio *a = c->xfer;
 		c->xfer    = NULL;
-		nni_aio_finish_error(a, NNG_ECONNRESET);
+		/* ok == 2: the peer hung up before the handshake went out - the platform stream reports EPIPE as NNG_ECLOSED */
+		nng_err srv = ok == 2 ? NNG_ECLOSED : NNG_ECONNRESET;
+		int     had = user_cur;
+		nni_aio_finish_error(a, srv);
 		kquiesce();
+		if (had >= 0) {
+			/* core/listener.c listener_accept_cb (and dialer_connect_cb) read NNG_ECLOSED / NNG_ECANCELED / NNG_ESTOPPED as
+			 * "this endpoint was closed" and stop accepting (dialing) for good: a connection-level failure must never be
+			 * reported to the socket with one of those codes while the endpoint is open */
+			nng_err got = nni_aio_result(&uaio_at(had));
+			CHECK(KDONE(had) && got != NNG_ECLOSED && got != NNG_ECANCELED && got != NNG_ESTOPPED && got != 0,
+			    "C11/C14: a peer that drops out of the handshake is reported as a connection failure, never as 'endpoint closed' (the listener would stop accepting)");
+			if (ok == 2)
+				WITNESS("peer hung up during the handshake");
+		}
 		CHECK(c->closed >= 1, "a connection whose handshake fails is closed");
 		CHECK(npp[pk].close_calls >= 1, "and its pipe is closed");
 		CHECK(!in_list(&ep.negopipes, &tpp[pk]) && !in_list(&ep.waitpipes, &tpp[pk]), "it is never offered to the socket");
-		settle_user(NNG_ECONNRESET, 0);
+		settle_user(ok == 2 ? NNG_ECONNSHUT : NNG_ECONNRESET, 0);
 		WITNESS("handshake failed");
 	}
 	monitor();
